@@ -1,7 +1,8 @@
 (** C14 — The attributes of a message agree with each other.
     Statements only; every proof is [exact <lemma>]. *)
 From Coq Require Import String Ascii List Bool Arith.
-From Raven Require Import Base.GoStr Model.Sections Spec.Attrs Proof.Sections.
+From Raven Require Import Base.GoStr Model.Sections Model.Envelope Spec.Attrs Spec.EnvelopeSpec
+  Proof.Sections Proof.SectionsTree Proof.EnvelopeFacts.
 Import ListNotations.
 
 (** (a) RFC822.SIZE is the length of what BODY[] returns (both are computed
@@ -87,3 +88,68 @@ Print Assumptions c14_refuted_rewrap.
 Example reader_hypothesis_satisfiable :
   exists reader_part : str -> str, forall w, has_suffix w crlf = true -> reader_part w = strip2 w.
 Proof. exists strip2. reflexivity. Qed.
+
+(** (c, paths) For EVERY MIME tree the delivery side can store (container
+    types "multipart/...", leaf types not multipart), every id base and EVERY
+    section path: mapIMAPPartPathToDBPart over the stored rows (preorder ids,
+    part numbers relative to the parent, root container without number) finds
+    a row iff the IMAP numbering of the tree has a node at that path, and the
+    row carries that node's media type, encoding and content. *)
+Theorem c14_path_agrees : forall (t : tree) (base : nat) (p : list nat),
+  wf t = true ->
+  option_map view_r (map_path (rows_of t base) p) = option_map view_t (tree_at t p).
+Proof. exact path_agrees. Qed.
+Print Assumptions c14_path_agrees.
+
+(** ... so BODY[p] of a leaf returns that leaf's content ... *)
+Theorem c14_leaf_agrees : forall t base p ct enc c,
+  wf t = true -> tree_at t p = Some (Leaf ct enc c) ->
+  section_of (rows_of t base) p = SLeaf c /\
+  exists r, map_path (rows_of t base) p = Some r /\ rct r = ct /\ renc r = enc /\ rcontent r = c.
+Proof. exact leaf_path_content. Qed.
+Print Assumptions c14_leaf_agrees.
+
+(** ... and a path absent from the structure yields no data (NIL), also
+    under a partial. *)
+Theorem c14_absent_path_nil : forall t base p,
+  wf t = true -> tree_at t p = None -> section_of (rows_of t base) p = SNil.
+Proof. exact absent_path_nil. Qed.
+Print Assumptions c14_absent_path_nil.
+
+Definition ex_tree : tree :=
+  Multi (S_ "multipart/mixed")
+    (FCons (Leaf (S_ "text/plain") [] (S_ "hello"))
+    (FCons (Multi (S_ "multipart/alternative")
+              (FCons (Leaf (S_ "text/plain") [] (S_ "inner"))
+              (FCons (Leaf (S_ "text/html") (S_ "base64") (S_ "QUJD")) FNil)))
+    (FCons (Leaf (S_ "application/pdf") [] (S_ "PDF")) FNil))).
+
+Example ex_tree_wf : wf ex_tree = true.
+Proof. reflexivity. Qed.
+Example ex_tree_leaf : section_of (rows_of ex_tree 7) [2; 2] = SLeaf (S_ "QUJD").
+Proof. vm_compute. reflexivity. Qed.
+Example ex_tree_absent : section_of (rows_of ex_tree 7) [2; 3] = SNil /\ tree_at ex_tree [2; 3] = None.
+Proof. split; vm_compute; reflexivity. Qed.
+
+(** (d) ENVELOPE.  Every header field value survives QuoteOrNIL for ALL byte
+    strings: the empty value is NIL, any other value is a quoted string that
+    decodes to the value (date, subject, in-reply-to, message-id, and each
+    address component). *)
+Theorem c14_envelope_quote_roundtrip : forall s : str, imap_unquote (quote_or_nil s) = Some s.
+Proof. exact quote_roundtrip. Qed.
+Print Assumptions c14_envelope_quote_roundtrip.
+
+(** Address lists: NOT proved for all inputs (see NOTES/C14.md); the defect
+    classes are witnessed, the plain case is an example. *)
+Theorem c14_refuted_name_comma :
+  exists name local dom, classify_addr name = Some NameComma /\ addr_ok name local dom = false.
+Proof. exact refuted_name_comma. Qed.
+Print Assumptions c14_refuted_name_comma.
+
+Theorem c14_refuted_name_quoted_pair :
+  exists name local dom, classify_addr name = Some NameQuotedPair /\ addr_ok name local dom = false.
+Proof. exact refuted_name_quoted_pair. Qed.
+Print Assumptions c14_refuted_name_quoted_pair.
+
+Example ex_addr_plain : addr_ok (S_ "Bob Smith") (S_ "bob") (S_ "example.com") = true.
+Proof. vm_compute. reflexivity. Qed.
